@@ -512,7 +512,7 @@ pub fn call_frame(cid: u32, seq: u32, c: &CallSpec) -> Vec<u8> {
 /// 1 = another member order (the hash picks the permutation); 2 = blanks and line breaks between
 /// tokens (the parameters pretty-printed); 4 = flags that are not set are written out as `false`;
 /// 8 = an extra member the receiver does not know, with nested content; 16 = blanks around the
-/// whole document; 32 = the call carries `"upgrade": true`. Member names are never escaped: zlink's `Call` decoder documents itself as
+/// whole document; 32 = the call carries `"upgrade": true`; 64 = an unknown member whose string is not valid UTF-8. Member names are never escaped: zlink's `Call` decoder documents itself as
 /// reading keys zero-copy, which no JSON decoder can do for an escaped name.
 fn spell_call(v: &Value, style: u32, h: u64) -> Vec<u8> {
     let sp = if style & 2 != 0 { " " } else { "" };
@@ -531,6 +531,12 @@ fn spell_call(v: &Value, style: u32, h: u64) -> Vec<u8> {
     if style & 8 != 0 {
         members.push(format!("\"x-trace\":{sp}{{\"hops\":[1,{{\"via\":null}},\"a\\u0000b\"],\"method\":\"org.example.Nope\",\"oneway\":true}}"));
     }
+    // 64 = a member the receiver does not know whose string value is not valid UTF-8 (a decoder
+    // that skips unknown members does not look inside; the frame decodes)
+    let invalid_utf8 = style & 64 != 0;
+    if invalid_utf8 {
+        members.push(format!("\"x-blob\":{sp}\"@@INVALID@@\""));
+    }
     if style & 1 != 0 {
         // a permutation chosen by the hash (Fisher-Yates with successive digits of h)
         let mut h = h;
@@ -544,7 +550,14 @@ fn spell_call(v: &Value, style: u32, h: u64) -> Vec<u8> {
     let (open, close) = if style & 2 != 0 { ("{ ", "\n}") } else { ("{", "}") };
     let body = format!("{open}{}{close}", members.join(sep));
     let out = if style & 16 != 0 { format!(" \t{body}\r\n ") } else { body };
-    out.into_bytes()
+    let mut bytes = out.into_bytes();
+    if invalid_utf8 {
+        let pat = b"@@INVALID@@";
+        if let Some(at) = bytes.windows(pat.len()).position(|w| w == pat) {
+            bytes.splice(at..at + pat.len(), [0xFFu8, 0xFE, b'x', 0xC3, 0x28, 0xF0, 0x9F]);
+        }
+    }
+    bytes
 }
 
 /// What the sequential reference execution of the (pure) service sends to this client.
